@@ -2,7 +2,7 @@
    Only statements, each closed by `exact`, each followed by Print Assumptions. *)
 From Coq Require Import ZArith List String Bool.
 From FpyV Require Import Backend.FPCore Backend.FPCoreProofs Backend.ToFPCore Backend.ToFPCoreProofs
-  Backend.FromFPCore Backend.FromFPCoreProofs.
+  Backend.FromFPCore Backend.FromFPCoreProofs Backend.OpTables Backend.OpTablesProofs.
 Import ListNotations.
 Open Scope Z_scope.
 
@@ -127,3 +127,28 @@ Theorem C12_roundtrip_witness :
     run_func Z zops 1 FP64c f' witness_args = run_func Z zops 1 FP64c witness_func witness_args.
 Proof. exact roundtrip_witness. Qed.
 Print Assumptions C12_roundtrip_witness.
+
+(* operator tables (data in the source, regenerated on every run as
+   build/C12/C12Tables.v, where fwd_ok / bwd_ok are proved by computation for
+   the tables of the working tree): when every entry of the backend table and
+   of the frontend table is a pair of like-named operator and node class, the
+   frontend table inverts the backend table, and conversely. *)
+Theorem C12_op_tables_roundtrip :
+  forall spec back front,
+    spec_ok spec = true -> fwd_ok spec back = true -> bwd_ok spec front = true ->
+    forall cls nm cls', In (cls, nm) back -> In (nm, cls') front -> cls' = cls.
+Proof. exact tables_roundtrip. Qed.
+Print Assumptions C12_op_tables_roundtrip.
+
+Theorem C12_op_tables_roundtrip_back :
+  forall spec back front,
+    spec_ok spec = true -> fwd_ok spec back = true -> bwd_ok spec front = true ->
+    forall nm cls nm', In (nm, cls) front -> In (cls, nm') back -> nm' = nm.
+Proof. exact tables_roundtrip_back. Qed.
+Print Assumptions C12_op_tables_roundtrip_back.
+
+Theorem C12_op_specs_ok :
+  spec_ok spec_unary = true /\ spec_ok spec_binary = true /\ spec_ok spec_ternary = true /\
+  spec_ok spec_nary = true /\ spec_ok spec_compare = true /\ functional spec_const = true.
+Proof. exact specs_ok. Qed.
+Print Assumptions C12_op_specs_ok.
